@@ -683,6 +683,8 @@ def call_lua_sandbox(
 
     # Call the Lua function in the given module
     stack_len = len(ctx.expand_stack)
+    env_stack_len = len(ctx.lua_env_stack)
+    frame_stack_len = len(ctx.lua_frame_stack)
     ctx.expand_stack.append("Lua:{}:{}()".format(modname, modfn))
     if TYPE_CHECKING:
         assert ctx.lua_invoke is not None
@@ -715,9 +717,12 @@ def call_lua_sandbox(
             ctx.expand_stack.pop()
     # print("Lua call {} returned: ok={!r} text={!r}"
     #       .format(invoke_args, ok, text))
-    if len(ctx.lua_env_stack) > 0:
+    # Drop what this invocation pushed.  It may have failed before it pushed
+    # its environment, so the entries of an enclosing invocation (this one
+    # was then made through frame:preprocess etc.) must not be popped.
+    while len(ctx.lua_env_stack) > env_stack_len:
         ctx.lua_env_stack.pop()
-    if len(ctx.lua_frame_stack) > 0:
+    while len(ctx.lua_frame_stack) > frame_stack_len:
         ctx.lua_frame_stack.pop()
     if ok:  # XXX should this be "is True" instead of checking truthiness?
         text = str(text) if text is not None else ""
@@ -731,6 +736,11 @@ def call_lua_sandbox(
         ).strip()
     elif not isinstance(text, str):
         text = str(text)
+    if "Lua timeout error" in text and env_stack_len > 0:
+        # An invocation made from inside another one runs under the time
+        # limit of the outermost invocation; running out of time ends that
+        # one too instead of becoming a piece of text in its output.
+        raise lupa.LuaError("Lua timeout error")
     msg = re.sub(r".*?:\d+: ", "", text.split("\n", 1)[0])
     if "'debug.error'" in text:
         if not msg.startswith("This template is deprecated."):
